@@ -1,7 +1,7 @@
 //! C09 Annual results do not depend on how time is laid out.
 
 use super::{flow_models, strs, FlowSpec};
-use crate::cmp::{self, cmp_flat, show, step_index};
+use crate::cmp::{self, show, step_index};
 use crate::core::*;
 use crate::model::*;
 use crate::subj;
@@ -35,7 +35,7 @@ fn check_transform(base_ratios: bool, base: &Flat, text2: &str, what: &str, fs: 
     let t = subj::tol(mag);
     out.compared += 1;
     let ratios = base_ratios && cmp::ratios_ok(&e2, mag);
-    let d = cmp_flat(base, &f2, t, 1e-5, &|p| annual_only(p) || (p.starts_with("rer") && !ratios), &|_, x| x);
+    let d = cmp::cmp_flat_m(base, &f2, t, 1e-5, mag, mag, &|p| annual_only(p) || (p.starts_with("rer") && !ratios), &|_, x| x);
     if !d.is_empty() {
         let (a, b) = show(&d);
         out.viol("annual_results_unchanged", &[what.split(':').next().unwrap_or("")], &cfg, format!("transformed: {b}"), format!("original: {a}"));
